@@ -179,7 +179,10 @@ impl Tunnel {
                     }
                     (Err(e), ..) => {
                         log_id!(debug, request_id, "Failed to get auth info: {}", e);
-                        request.fail_request(ConnectionError::Io(e));
+                        // credentials which cannot be understood are not valid credentials
+                        request.fail_request(ConnectionError::Authentication(
+                            "Unsupported authorization info".to_string(),
+                        ));
                         return;
                     }
                 };
